@@ -12,14 +12,14 @@ def register(reg):
     A("XorProvider", _XorProvider__key="bytes")
     A("AesProvider", _AesProvider__key="bytes")
     A("BaseField", _key="str", _name="opt:str", _schema="opt:ref:Schema")
-    A("Field", required="bool", _default="any", validator="opt:ref:function", sensitive="bool", description="any", help="opt:str", env=ENV)
+    A("Field", storage_type="any", required="bool", _default="any", validator="opt:ref:function", sensitive="bool", description="any", help="opt:str", env=ENV)
     A("ConfigTypeField", config_type="cls:ConfigType")
     A("Schema", _dynamic="bool", _fields="rep:dict:1", _env_prefix=ENV, _validators="rep:list:2")
     A("Config", _schema="ref:Schema", _parent="opt:ref:Config", _container="opt:ref:ContainerValueMixin", _data="rep:dict:3",
       _fields="rep:dict:4", _key="str", _Config__keyfile="opt:ref:KeyFile", _default_value_keys="rep:set:5")
     A("ConfigType", __schema__="ref:Schema", __key_filename__="opt:str")
     A("ValidationError", config="any", field="any", exc="any", _ref_path="opt:str")
-    A("ListField", field="any", storage_type="any")
+    A("ListField", field="any")
     A("DictField", key_field="opt:ref:Field", value_field="opt:ref:Field", _use_proxy="bool")
     A("ListProxy", cfg="ref:Config", list_field="ref:ListField")
     A("DictProxy", cfg="ref:Config", dict_field="ref:DictField")
